@@ -358,3 +358,143 @@ def run_C06(ctx):
     # histories of builds in one process over files that change between builds
     res4 = ctx.vh("c06-history", ctx.seed, 60 if ctx.quick else 600, timeout=600)
     ctx.absorb(res4, "G:c06-history")
+
+
+# ------------------------------------------------------------------------ C18
+def _race_reports(prefix):
+    """Parse the race detector's reports: for each, the first frame inside jsight-api-core / jsight-schema-core of each access."""
+    import glob
+    import re
+    out = []
+    for f in glob.glob(prefix + ".*"):
+        t = open(f, errors="replace").read()
+        for rep in t.split("WARNING: DATA RACE")[1:]:
+            keys = []
+            for sec in re.split(r"\n(?=Previous |Read at|Write at)", rep)[:3]:
+                for fn, file, line in re.findall(r"\n\s+([\w./*()\[\]-]+)\(\)\n\s+(\S+):(\d+)", sec):
+                    if "jsightapi" in file or "/repo/" in file:
+                        where = file.split("jsight-schema-core@v0.2.0/")[-1] if "jsight-schema-core" in file else file.replace(REPO + "/", "")
+                        keys.append(("dep:" if "jsight-schema-core" in file else "repo:") + where + ":" + fn.split("/")[-1])
+                        break
+            out.append(" || ".join(keys))
+    return out
+
+
+def run_C18(ctx):
+    ctx.cov["rule"] = ("M: Conc.tla, every interleaving of 3 goroutines over the pooled buffers of the dependency (with the repository's mutex) and the sync.Once of a shared catalog: Sequential, NoPartialContent, "
+                       "termination; the two negative configurations (pool not locked, unsynchronised fast path) must be rejected by TLC (the invariants are not vacuous). "
+                       "G/V: a stress driver built with -race runs rounds of (a) G goroutines building and serialising different projects at the same moment and (b) G goroutines serialising one freshly built catalog "
+                       "at the same moment (first serialisation included), over the lazy-path documents and corpus projects; every call's digest is logged with per-goroutine sequence numbers and validated by "
+                       "Trace_C18.tla against the digest of the same call run alone; every report of the race detector is a violation. Non-trivial = rounds x phases.")
+    ctx.assumptions += ["real schedules cannot be forced without hooks in the dependency: replay is statistical (rounds x goroutines with start barriers, GOMAXPROCS = all cores)",
+                        "the race detector is the observer for the 'no data race' clause"]
+    ctx.tlc("Conc", cfg="Conc_ok.cfg", timeout=600, label="Conc(ok)")
+    for cfg, inv in (("Conc_unlockedpool.cfg", "Sequential"), ("Conc_fastpath.cfg", "NoPartialContent")):
+        r = ctx.tlc("Conc", cfg=cfg, timeout=600, label="Conc(negative:%s)" % cfg, allow_violation=True)
+        if inv not in r.violated:
+            raise MachineryError("the negative configuration %s is not rejected: invariant %s is vacuous" % (cfg, inv))
+    race = ctx.build_harness(race=True)
+    rounds = 25 if ctx.quick else 300
+    total = 0
+    for i, src in enumerate(["docs", "corpus:%s:%d" % (REPO, 9 if ctx.quick else 2)]):
+        tp = os.path.join(ctx.scratch, "c18-%d" % i, "trace_c18.ndjson")
+        os.makedirs(os.path.dirname(tp))
+        logp = os.path.join(ctx.scratch, "race-%d" % i)
+        res = ctx.vh("conc-stress", src, ctx.seed + i, rounds, 12, tp, binary=race,
+                     env={"GORACE": "halt_on_error=0 log_path=" + logp}, timeout=3000)
+        ctx.absorb(res, "V:conc-stress(%s)" % src.split(":")[0])
+        for key in _race_reports(logp):
+            ctx.violation("c18:data-race:" + key, "the race detector reports a data race: " + key, {"kind": "c18-race", "source": src, "seed": ctx.seed + i, "frames": key})
+        ok, tr = validate_trace(ctx, "Trace_C18", "trace_c18.ndjson", tp)
+        if not ok:
+            ctx.violation("c18:trace-rejected", "a recorded concurrent history is not accepted by Trace_C18.tla (event %d)" % tr.depth,
+                          {"kind": "c18-trace", "source": src, "seed": ctx.seed + i})
+        else:
+            ctx.cov["traces_validated_against_impl"] += res["extra"]["events"]
+            total += res["extra"]["events"]
+    # binding self-test: a corrupted digest must be rejected
+    tp2 = os.path.join(ctx.scratch, "c18-x", "trace_c18.ndjson")
+    os.makedirs(os.path.dirname(tp2))
+    with open(tp2, "w") as fh:
+        fh.write('{"ev":"call","g":0,"seq":1,"project":"p","acc":"ToJson","digest":"aa","want":"aa","phase":"shared"}\n')
+        fh.write('{"ev":"call","g":1,"seq":1,"project":"p","acc":"ToJson","digest":"ab","want":"aa","phase":"shared"}\n')
+    ok2, _ = validate_trace(ctx, "Trace_C18", "trace_c18.ndjson", tp2, expect_reject=True)
+    ctx.selftest(not ok2, "C18 V: a history with a differing digest is rejected")
+
+
+# ------------------------------------------------------------------------ C01
+def _fuzz_ranges(ctx, seed, total, chunk=20000, timeout=300):
+    """Run the seeded fuzz stream in isolated worker processes; bisect a dead / hung worker."""
+    from concurrent.futures import ThreadPoolExecutor
+    agg = dict(cases=0, nontrivial=0, n_mismatch=0, mismatches=[], samples=[], counters={}, unreproduced=0)
+
+    def run(a, b):
+        try:
+            return ctx.vh_quiet("fuzz-build", REPO, seed, a, b, timeout=timeout)
+        except subprocess.TimeoutExpired:
+            return dict(error="timeout", rc=-9, stderr="worker exceeded %ds" % timeout)
+
+    def go(rng):
+        a, b = rng
+        res = run(a, b)
+        if not res.get("error"):
+            return [res]
+        if b - a == 1:
+            err = res.get("stderr") or ""
+            first = next((l for l in err.splitlines() if l.startswith(("fatal error", "panic:", "runtime:"))), err[:200])
+            return [dict(cases=1, nontrivial=1, n_mismatch=1, mismatches=[dict(
+                sig="c01:process-died:" + first[:80], what="fuzz case %d (seed %d): the process died or hung (rc=%s): %s" % (a, seed, res.get("rc"), first[:300]),
+                replay=dict(kind="c01-fuzz", seed=seed, case=a))])]
+        mid = (a + b) // 2
+        return go((a, mid)) + go((mid, b))
+
+    ranges = [(i, min(i + chunk, total)) for i in range(0, total, chunk)]
+    from vlib import NCPU
+    with ThreadPoolExecutor(max_workers=max(1, NCPU - 2)) as ex:
+        for lst in ex.map(go, ranges):
+            for res in lst:
+                for k in ("cases", "nontrivial"):
+                    agg[k] += res.get(k, 0)
+                agg["samples"] += (res.get("samples") or [])[:1]
+                for k, v in (res.get("counters") or {}).items():
+                    agg["counters"][k] = agg["counters"].get(k, 0) + v
+                for m in res.get("mismatches") or []:
+                    # a verdict needs a reproducible case: re-run it alone in a fresh process
+                    c = m["replay"].get("case")
+                    again = run(c, c + 1) if c is not None and "process-died" not in m["sig"] else None
+                    if again is not None and not again.get("error") and not again.get("n_mismatch"):
+                        agg["unreproduced"] += 1
+                        log("UNREPRODUCED (not a verdict): " + m["what"][:300])
+                        continue
+                    agg["mismatches"].append(m)
+                    agg["n_mismatch"] += 1
+    agg["samples"] = agg["samples"][:4]
+    agg["extra"] = dict(unreproduced=agg.pop("unreproduced"))
+    log("[fuzz] seed %d: %d cases, %d mismatches, %s" % (seed, agg["cases"], agg["n_mismatch"], agg["extra"]))
+    return agg
+
+
+def run_C01(ctx):
+    ctx.cov["rule"] = ("M: no partial function of the code is reachable -- scanner model (NoPanic, bounded stacks, every tape up to the bound), macro graphs (every PASTE graph over 4 macros incl. all cycle lengths: "
+                       "rejected, expansion bounded), include graphs (stack never holds a file twice, bounded steps). G: every tape of the scanner model through the WHOLE build; every macro graph and include graph "
+                       "through the real build in crash-isolated workers. V: a seeded fuzz stream (random bytes incl. NUL / invalid UTF-8, random directive words, mutated / truncated / spliced corpus files, include graphs on "
+                       "disk with cycles / missing / directory / empty names / trailing garbage, missing / empty / directory roots) in isolated worker processes with a wall-clock limit; a panic, a fatal error, a killed or hung "
+                       "worker (bisected to one case) is the violation. Non-trivial = cases that are not rejected by the first scanner state.")
+    ctx.assumptions += ["'time proportional to the input': per-case limit 2 s + 50 us/byte and a wall-clock limit per worker (hangs)",
+                        "a panic that does not reproduce when its case is re-run alone in a fresh process is logged as UNREPRODUCED and is not a verdict"]
+    # scanner tapes through the whole build
+    r = ctx.tlc("MC_C12", cfg="MC_C12_quick.cfg" if ctx.quick else "MC_C12_thorough.cfg", timeout=3000)
+    res = ctx.vh_isolated("tape-build", r.out, chunk=60000, timeout=600, sig_prefix="c01")
+    ctx.absorb(res, "G:tape-build")
+    # macro graphs (cycles) and include graphs: only crashes / hangs are C01's
+    r2 = ctx.tlc("MC_C10cyc", timeout=900)
+    res2 = ctx.vh_isolated("c10-replay", r2.out, chunk=400, timeout=120, sig_prefix="c01")
+    ctx.absorb(_only(res2, ["c01:", "c10:panic"]), "G:c10-replay(cycles, crash-only)")
+    r3 = ctx.tlc("MC_C07", cfg="MC_C07_quick.cfg", timeout=3000)
+    res3 = ctx.vh_isolated("c07-replay", r3.out, chunk=20000, timeout=900, sig_prefix="c01")
+    ctx.absorb(_only(res3, ["c01:", "c07:panic"]), "G:c07-replay(include graphs, crash-only)")
+    # fuzz
+    n = 300000 if ctx.quick else 6000000
+    fz = _fuzz_ranges(ctx, ctx.seed, n)
+    ctx.absorb(fz, "V:fuzz-build")
+    ctx.cov["fuzz_unreproduced_panics"] = fz["extra"]["unreproduced"]
